@@ -403,6 +403,14 @@ func (x *exec) evBin(n *EBin, env *Env, hint types.Type) *Val {
 	case "<==>":
 		return x.mkVal(Eq(x.evalB(n.X, env), x.evalB(n.Y, env)), boolT)
 	case "in":
+		if id, ok := n.Y.(*EId); ok && id.Name == "$visited" {
+			// k in $visited: membership in the ghost set of keys the enclosing range-over-map loop has visited
+			if env.visited == "" || env.seq == nil {
+				fail("spec: $visited is only available in invariants of a range-over-map loop")
+			}
+			kv := x.ev(n.X, env, env.seq.m.Key())
+			return x.mkVal(Sel(env.visited, x.term(kv)), boolT)
+		}
 		mv := x.ev(n.Y, env, nil)
 		m, ok := mv.Typ.Underlying().(*types.Map)
 		if !ok {
